@@ -1040,3 +1040,356 @@ Proof.
     + rewrite E4, E5. reflexivity.
     + intros y Hy Hw HT. apply (E6 y Hy Hw HT).
 Qed.
+
+(* ---- the rule models at a site ---- *)
+
+Definition site_scoped (s1 s2 : st) : bool :=
+  match s1, loop_shape s2 with
+  | SAssign x _, Some (cl, _) => top_scoped x [] (clause_targets cl) cl
+  | _, _ => false
+  end.
+
+Definition site_targets (s2 : st) : list nat :=
+  match loop_shape s2 with Some (cl, _) => clause_targets cl | None => [] end.
+
+Lemma gens_mention_targets : forall x j cl,
+  existsb (mentions x) (map (gen_of j) cl) = false -> memn x (clause_targets cl) = false.
+Proof.
+  induction cl as [|[[t it] ifs] cl IH]; intros H; [reflexivity|].
+  cbn [map gen_of existsb mentions] in H. apply orb_false_iff in H as [H1 H2].
+  apply orb_false_iff in H1 as [H1 _]. apply orb_false_iff in H1 as [H1 _].
+  cbn [clause_targets map concat fst]. rewrite memn_app, H1. apply IH, H2.
+Qed.
+
+Lemma nest_guard_intro : forall x cl e j,
+  mentions x e = false -> existsb (mentions x) (map (gen_of j) cl) = false ->
+  top_scoped x [] (clause_targets cl) cl = true -> nest_guard x [] cl [e] = true.
+Proof.
+  intros x cl e j H1 H2 H3. unfold nest_guard. cbn [forallb]. rewrite H1, (gens_mention_targets x j cl H2), H3. reflexivity.
+Qed.
+
+Lemma upd_same : forall en x v, upd en x v x = Some v.
+Proof. intros. unfold upd. rewrite Nat.eqb_refl. reflexivity. Qed.
+
+Lemma upd_other : forall en x v y, y <> x -> upd en x v y = en y.
+Proof. intros en x v y H. unfold upd. apply Nat.eqb_neq in H. rewrite H. reflexivity. Qed.
+
+Lemma int_literal_eval : forall w e z en tr, int_literal e = Some z -> eval w e en tr = Some (VInt z, tr).
+Proof.
+  intros w e z en tr H. destruct e; try discriminate.
+  - destruct a; try discriminate. inversion H. reflexivity.
+  - destruct e; try discriminate. destruct a; try discriminate. inversion H. reflexivity.
+Qed.
+
+Theorem setlist_site_sound : forall w after s1 s2 s',
+  site_setlist after s1 s2 = Some s' -> site_scoped s1 s2 = true ->
+  forall en tr en1 tr1, exec_block w [s1; s2] en tr = Some (en1, tr1) ->
+  exists en2, exec_block w [s'] en tr = Some (en2, tr1)
+    /\ forall y, memn y (site_targets s2) = false -> en1 y = en2 y.
+Proof.
+  intros w after s1 s2 s' Hs Hsc en tr en1 tr1 Hex.
+  unfold site_setlist in Hs. unfold site_scoped in Hsc. unfold site_targets.
+  destruct s1 as [x value| | | | | |]; try discriminate.
+  destruct (loop_shape s2) as [[cl leaf]|] eqn:Hshape; [|discriminate].
+  pose proof (loop_shape_sound _ _ _ Hshape) as Hb.
+  change [SAssign x value; s2] with ([SAssign x value] ++ [s2]) in Hex. rewrite exec_block_app, Hb in Hex.
+  rewrite exec_block1 in Hex. cbn [exec] in Hex.
+  destruct leaf as [| r m e | x' o e | | | |]; try discriminate.
+  - (* append / add *)
+    destruct r as [x'|]; [|discriminate]. destruct m; try discriminate.
+    + (* append *)
+      destruct value; try discriminate. destruct k; try discriminate. destruct elts; [|discriminate].
+      destruct (Nat.eqb x' x) eqn:Ex; [|discriminate]. apply Nat.eqb_eq in Ex. subst x'.
+      destruct (negb (mentions x e) && negb (existsb (mentions x) (map (gen_of true) cl))
+                && dead_after after (clause_targets cl)) eqn:G; [|discriminate]. inversion Hs; subst s'. clear Hs.
+      apply andb_true_iff in G as [G _]. apply andb_true_iff in G as [G1 G2].
+      apply negb_true_iff in G1. apply negb_true_iff in G2.
+      cbn [eval ev_list] in Hex.
+      destruct (list_nest_sound w x cl e [] en tr en1 tr1 (nest_guard_intro x cl e true G1 G2 Hsc) Hex)
+        as [acc [E1 [E2 E3]]].
+      exists (upd en x (VList acc)). split.
+      * rewrite exec_block1. cbn [exec]. rewrite E1. reflexivity.
+      * intros y Hy. destruct (Nat.eq_dec y x) as [->|Hn]; [rewrite E2, upd_same; reflexivity|].
+        rewrite (E3 y Hn Hy), upd_other by exact Hn. reflexivity.
+    + (* add *)
+      destruct value; try discriminate. destruct b; try discriminate. destruct args; [|discriminate].
+      destruct (Nat.eqb x' x) eqn:Ex; [|discriminate]. apply Nat.eqb_eq in Ex. subst x'.
+      destruct (negb (mentions x e) && negb (existsb (mentions x) (map (gen_of true) cl))
+                && dead_after after (clause_targets cl)) eqn:G; [|discriminate]. inversion Hs; subst s'. clear Hs.
+      apply andb_true_iff in G as [G _]. apply andb_true_iff in G as [G1 G2].
+      apply negb_true_iff in G1. apply negb_true_iff in G2.
+      cbn [eval ev_list capply bapply] in Hex.
+      destruct (set_nest_sound w x cl e [] en tr en1 tr1 (nest_guard_intro x cl e true G1 G2 Hsc) Hex)
+        as [acc [E1 [E2 E3]]].
+      exists (upd en x (VSet (fold_left set_add acc []))). split.
+      * rewrite exec_block1. cbn [exec]. rewrite E1. reflexivity.
+      * intros y Hy. destruct (Nat.eq_dec y x) as [->|Hn]; [rewrite E2, upd_same; reflexivity|].
+        rewrite (E3 y Hn Hy), upd_other by exact Hn. reflexivity.
+  - (* += / -= *)
+    destruct (int_literal value) as [z|] eqn:Hz; [|destruct o; discriminate].
+    assert (Ho : o = OAdd \/ o = OSub) by (destruct o; try discriminate; auto).
+    assert (Hs' : (if Nat.eqb x' x && (negb (mentions x e) && negb (existsb (mentions x) (map (gen_of true) cl))
+                                       && dead_after after (clause_targets cl))
+                   then Some (SAssign x (if z =? 0 then match o with OSub => XNeg (XBi BSum [XComp CGen e dummy (map (gen_of true) cl)])
+                                                         | _ => XBi BSum [XComp CGen e dummy (map (gen_of true) cl)] end
+                                         else XBin o value (XBi BSum [XComp CGen e dummy (map (gen_of true) cl)])))
+                   else None) = Some s') by (destruct Ho; subst o; exact Hs).
+    clear Hs. destruct (Nat.eqb x' x) eqn:Ex; [|discriminate]. apply Nat.eqb_eq in Ex. subst x'. cbn [andb] in Hs'.
+    destruct (negb (mentions x e) && negb (existsb (mentions x) (map (gen_of true) cl))
+              && dead_after after (clause_targets cl)) eqn:G; [|discriminate]. inversion Hs'; subst s'. clear Hs'.
+    apply andb_true_iff in G as [G _]. apply andb_true_iff in G as [G1 G2].
+    apply negb_true_iff in G1. apply negb_true_iff in G2.
+    rewrite (int_literal_eval w value z en tr Hz) in Hex.
+    destruct (sum_nest_sound w x cl e o z en tr en1 tr1 Ho (nest_guard_intro x cl e true G1 G2 Hsc) Hex)
+      as [s [E1 [E2 E3]]].
+    exists (upd en x (VInt (sgn o z s))). split.
+    + rewrite exec_block1. cbn [exec]. destruct (z =? 0) eqn:Ez.
+      * apply Z.eqb_eq in Ez. subst z. destruct Ho; subst o.
+        -- rewrite E1. cbn [sgn]. reflexivity.
+        -- change (eval w (XNeg ?a) en tr) with
+             (match eval w a en tr with Some (v, tr1) => match num v with Some z => Some (VInt (- z), tr1) | None => None end | None => None end).
+           cbn [eval] in E1 |- *. rewrite E1. cbn [num sgn]. reflexivity.
+      * change (eval w (XBin o value ?b) en tr) with
+          (match eval w value en tr with
+           | Some (a, tr1) => match eval w b en tr1 with
+                              | Some (b', tr2) => match binop_val o a b' with Some v => Some (v, tr2) | None => None end
+                              | None => None end
+           | None => None end).
+        rewrite (int_literal_eval w value z en tr Hz), E1. destruct Ho; subst o; reflexivity.
+    + intros y Hy. destruct (Nat.eq_dec y x) as [->|Hn]; [rewrite E2, upd_same; reflexivity|].
+      rewrite (E3 y Hn Hy), upd_other by exact Hn. reflexivity.
+Qed.
+
+(* ---- replace_listcomp_append_with_plus / replace_setcomp_add_with_union ---- *)
+
+(* a start value that cannot be anything but a list (resp. a set) *)
+Fixpoint coll_typed (is_set : bool) (e : cx) : bool :=
+  match e with
+  | XSeq KList _ => negb is_set
+  | XSeq KSet _ => is_set
+  | XComp CList _ _ _ => negb is_set
+  | XComp CSet _ _ _ => is_set
+  | XBin OAdd l r => negb is_set && (coll_typed is_set l || coll_typed is_set r)
+  | XBin OBitOr l r => is_set && (coll_typed is_set l || coll_typed is_set r)
+  | _ => false
+  end.
+
+Lemma mkset_shape' : forall l s, mkset l = Some s -> exists s', s = VSet s'.
+Proof. intros l s H. unfold mkset in H. destruct (forallb hashable l); inversion H. eexists; reflexivity. Qed.
+
+Lemma coll_typed_val : forall w is_set e en tr v tr',
+  coll_typed is_set e = true -> eval w e en tr = Some (v, tr') ->
+  exists l, v = if is_set then VSet l else VList l.
+Proof.
+  intros w is_set e. induction e using cx_ind'; intros en tr v tr' Ht He; try discriminate.
+  - (* XSeq *)
+    cbn [eval] in He. destruct (ev_list (eval w) en args tr) as [[vs tr1]|]; [|discriminate].
+    destruct k; cbn [coll_typed] in Ht.
+    + destruct is_set; [discriminate|]. inversion He. eexists; reflexivity.
+    + discriminate.
+    + destruct is_set; [|discriminate]. destruct (mkset vs) eqn:E; [|discriminate]. inversion He; subst.
+      eapply mkset_shape'; eassumption.
+  - (* XBin *)
+    cbn [eval] in He. destruct (eval w e1 en tr) as [[a tr1]|] eqn:E1; [|discriminate].
+    destruct (eval w e2 en tr1) as [[b tr2]|] eqn:E2; [|discriminate].
+    destruct (binop_val o a b) as [r|] eqn:Eb; [|discriminate]. inversion He; subst.
+    destruct o; cbn [coll_typed] in Ht; try discriminate.
+    + apply andb_true_iff in Ht as [Hs Ht]. destruct is_set; [discriminate|]. apply orb_true_iff in Ht as [Ht|Ht].
+      * destruct (IHe1 en tr a tr1 Ht E1) as [l ->]. cbn [binop_val] in Eb.
+        destruct b; cbn [num] in Eb; try discriminate. inversion Eb. eexists; reflexivity.
+      * destruct (IHe2 en tr1 b tr' Ht E2) as [l ->]. cbn [binop_val] in Eb.
+        destruct a; cbn [num] in Eb; try discriminate. inversion Eb. eexists; reflexivity.
+    + apply andb_true_iff in Ht as [Hs Ht]. destruct is_set; [|discriminate]. apply orb_true_iff in Ht as [Ht|Ht].
+      * destruct (IHe1 en tr a tr1 Ht E1) as [l ->]. cbn [binop_val] in Eb.
+        destruct b; try discriminate. inversion Eb. eexists; reflexivity.
+      * destruct (IHe2 en tr1 b tr' Ht E2) as [l ->]. cbn [binop_val] in Eb.
+        destruct a; try discriminate. inversion Eb. eexists; reflexivity.
+  - (* XComp *)
+    cbn [eval] in He. destruct gens as [|g rest]; [discriminate|]. destruct g; try discriminate.
+    destruct (eval w g en tr) as [[iv tr1]|]; [|discriminate]. destruct (items_of iv) as [xs|]; [|discriminate].
+    destruct (iter_items _ t xs _ tr1 []) as [[[e' acc] tr2]|]; [|discriminate].
+    destruct k; cbn [coll_typed finish] in *.
+    + destruct is_set; [discriminate|]. inversion He. eexists; reflexivity.
+    + destruct is_set; [|discriminate]. destruct (mkset acc) eqn:E; [|discriminate]. inversion He; subst.
+      eapply mkset_shape'; eassumption.
+    + discriminate.
+    + discriminate.
+Qed.
+
+Definition fold_typed (is_set : bool) (s2 : st) (value : cx) : bool :=
+  match s2 with
+  | SFor _ _ _ _ => coll_typed is_set value
+  | _ => true
+  end.
+
+Theorem fold_site_sound : forall w is_set after s1 s2 s',
+  site_fold is_set after s1 s2 = Some s' ->
+  (match s1 with SAssign _ value => fold_typed is_set s2 value | _ => false end) = true ->
+  forall en tr en1 tr1, exec_block w [s1; s2] en tr = Some (en1, tr1) ->
+  exists en2, exec_block w [s'] en tr = Some (en2, tr1)
+    /\ forall y, memn y (match s2 with SFor t _ _ _ => tnames t | _ => [] end) = false -> en1 y = en2 y.
+Proof.
+  intros w is_set after s1 s2 s' Hs Hty en tr en1 tr1 Hex.
+  unfold site_fold in Hs. destruct s1 as [x value| | | | | |]; try discriminate.
+  destruct ((if is_set then union_start else plus_start) value) eqn:Hstart; [|discriminate].
+  change [SAssign x value; s2] with ([SAssign x value] ++ [s2]) in Hex. rewrite exec_block_app in Hex.
+  rewrite exec_block1 in Hex. cbn [exec] in Hex.
+  destruct (eval w value en tr) as [[c0 tr0]|] eqn:Ev; [|discriminate].
+  destruct s2 as [| r m e | | | | t it body orelse |]; try discriminate.
+  - (* x.extend(e) / x.update(e) *)
+    destruct r as [x'|]; [|discriminate].
+    destruct (Nat.eqb x' x) eqn:Ex; [|discriminate]. apply Nat.eqb_eq in Ex. subst x'. cbn [andb] in Hs.
+    destruct (match m with MExtend => _ | _ => _ end) eqn:Hm in Hs; [|discriminate]. cbn [andb] in Hs.
+    destruct (mentions x e) eqn:Hxe; [discriminate|]. cbn [negb] in Hs. inversion Hs; subst s'. clear Hs.
+    rewrite exec_block1 in Hex. cbn [exec] in Hex. rewrite upd_same in Hex.
+    assert (Hfr : eval w e (upd en x c0) tr0 = eval w e en tr0).
+    { apply eval_frame. intros y Hy. apply upd_other. intros ->. congruence. }
+    rewrite Hfr in Hex. destruct (eval w e en tr0) as [[a tr2]|] eqn:Ee; [|discriminate].
+    destruct (meth_val m c0 a) as [c'|] eqn:Em; [|discriminate]. inversion Hex; subst.
+    exists (upd en x c'). split.
+    + rewrite exec_block1. cbn [exec eval ev_list]. rewrite Ev, Ee.
+      destruct is_set; destruct m; try discriminate; destruct c0; try discriminate; cbn [meth_val] in Em;
+        destruct (items_of a) as [ys|] eqn:Ei; try discriminate; cbn [capply bapply]; rewrite Ei; cbn [option_map].
+      * unfold mkset. destruct (forallb hashable ys); [|discriminate]. inversion Em; subst. cbn [binop_val].
+        unfold set_union. rewrite set_absorb. reflexivity.
+      * inversion Em; subst. reflexivity.
+    + intros y _. destruct (Nat.eq_dec y x) as [->|Hn]; [rewrite !upd_same; reflexivity|].
+      rewrite !upd_other by exact Hn. reflexivity.
+  - (* for t in it: x.append(e) / x.add(e) *)
+    destruct body as [|b [|? ?]]; try discriminate; destruct b; try discriminate; destruct r as [x'|]; try discriminate.
+    destruct orelse; [|discriminate].
+    destruct (Nat.eqb x' x) eqn:Ex; [|discriminate]. apply Nat.eqb_eq in Ex. subst x'. cbn [andb] in Hs.
+    destruct (match m with MAppend => _ | _ => _ end) eqn:Hm in Hs; [|discriminate]. cbn [andb] in Hs.
+    destruct (memn x (tnames t)) eqn:Hxt; [discriminate|]. destruct (mentions x it) eqn:Hxi; [discriminate|].
+    destruct (mentions x e) eqn:Hxe; [discriminate|]. cbn [negb andb] in Hs.
+    destruct (dead_after after (tnames t)); [|discriminate]. inversion Hs; subst s'. clear Hs.
+    cbn [fold_typed] in Hty. destruct (coll_typed_val w is_set value en tr c0 tr0 Hty Ev) as [l0 Hc0].
+    assert (G : nest_guard x [] [(t, it, [])] [e] = true).
+    { unfold nest_guard. cbn [forallb clause_targets map concat fst top_scoped scoped]. rewrite Hxe, Hxi, app_nil_r, Hxt. reflexivity. }
+    change [SFor t it [SMeth (RName x) m e] []] with (build [(t, it, [])] [SMeth (RName x) m e]) in Hex.
+    destruct is_set; destruct m; try discriminate; subst c0.
+    + destruct (set_nest_sound w x [(t, it, [])] e l0 en tr0 en1 tr1 G Hex) as [acc [E1 [E2 E3]]].
+      exists (upd en x (VSet (fold_left set_add acc l0))). split.
+      * rewrite exec_block1. cbn [exec].
+        change (eval w (XBin OBitOr value ?b) en tr) with
+          (match eval w value en tr with
+           | Some (a, tr1) => match eval w b en tr1 with
+                              | Some (b', tr2) => match binop_val OBitOr a b' with Some v => Some (v, tr2) | None => None end
+                              | None => None end
+           | None => None end).
+        rewrite Ev. cbn [map gen_of and_ifs] in E1. rewrite E1. cbn [binop_val]. unfold set_union. rewrite set_absorb. reflexivity.
+      * intros y Hy. destruct (Nat.eq_dec y x) as [->|Hn]; [rewrite E2, upd_same; reflexivity|].
+        cbn [clause_targets map concat fst] in E3. rewrite app_nil_r in E3. rewrite (E3 y Hn Hy), !upd_other by exact Hn. reflexivity.
+    + destruct (list_nest_sound w x [(t, it, [])] e l0 en tr0 en1 tr1 G Hex) as [acc [E1 [E2 E3]]].
+      exists (upd en x (VList (l0 ++ acc))). split.
+      * rewrite exec_block1. cbn [exec].
+        change (eval w (XBin OAdd value ?b) en tr) with
+          (match eval w value en tr with
+           | Some (a, tr1) => match eval w b en tr1 with
+                              | Some (b', tr2) => match binop_val OAdd a b' with Some v => Some (v, tr2) | None => None end
+                              | None => None end
+           | None => None end).
+        rewrite Ev. cbn [map gen_of and_ifs] in E1. rewrite E1. reflexivity.
+      * intros y Hy. destruct (Nat.eq_dec y x) as [->|Hn]; [rewrite E2, upd_same; reflexivity|].
+        cbn [clause_targets map concat fst] in E3. rewrite app_nil_r in E3. rewrite (E3 y Hn Hy), !upd_other by exact Hn. reflexivity.
+Qed.
+
+(* ---- replace_nested_loops_with_set_list_comp ---- *)
+
+Lemma down_sound : forall s ifs cl leaf, down s = (ifs, cl, leaf) -> [s] = wrap_ifs ifs (build cl leaf).
+Proof.
+  intros s. induction s using st_ind'; intros ifs cl leaf Hc;
+    try (cbn in Hc; inversion Hc; subst; reflexivity).
+  - cbn [down] in Hc. destruct orelse; [|inversion Hc; subst; reflexivity].
+    destruct body as [|b [|b2 body]]; try (inversion Hc; subst; reflexivity).
+    inversion H as [|? ? Hb _]; subst.
+    destruct b; try (inversion Hc; subst; reflexivity).
+    + destruct orelse; [|inversion Hc; subst; reflexivity].
+      destruct (down (SFor t0 it0 body [])) as [[ifs' cl'] leaf'] eqn:E. inversion Hc; subst.
+      cbn [wrap_ifs build]. rewrite <- (Hb _ _ _ eq_refl). reflexivity.
+    + destruct orelse; [|inversion Hc; subst; reflexivity].
+      destruct (down (SIf c body [])) as [[ifs' cl'] leaf'] eqn:E. inversion Hc; subst.
+      cbn [wrap_ifs build]. rewrite <- (Hb _ _ _ eq_refl). reflexivity.
+  - cbn [down] in Hc. destruct orelse; [|inversion Hc; subst; reflexivity].
+    destruct body as [|b [|b2 body]]; try (inversion Hc; subst; reflexivity).
+    inversion H as [|? ? Hb _]; subst.
+    destruct b; try (inversion Hc; subst; reflexivity).
+    + destruct orelse; [|inversion Hc; subst; reflexivity].
+      destruct (down (SFor t it body [])) as [[ifs' cl'] leaf'] eqn:E. inversion Hc; subst.
+      cbn [wrap_ifs build]. rewrite <- (Hb _ _ _ eq_refl). reflexivity.
+    + destruct orelse; [|inversion Hc; subst; reflexivity].
+      destruct (down (SIf c0 body [])) as [[ifs' cl'] leaf'] eqn:E. inversion Hc; subst.
+      cbn [wrap_ifs build]. rewrite <- (Hb _ _ _ eq_refl). reflexivity.
+Qed.
+
+(* the side conditions under which the theorem holds (the rule's own conditions are part of site_nested) *)
+Definition nested_guard (fresh : nat) (s : st) : bool :=
+  let '(_, cl, leaf) := down s in
+  match leaf with
+  | [SMeth (RName x) MExtend e] => nest_guard x [fresh] cl [e]
+  | [SAssign c e; SMeth (RName x) MExtend (XName _)] => nest_guard x [fresh; c] cl [e] && negb (Nat.eqb x c)
+  | _ => false
+  end.
+
+Definition nested_receiver (s : st) : option nat :=
+  let '(_, _, leaf) := down s in
+  match leaf with
+  | [SMeth (RName x) _ _] | [_; SMeth (RName x) _ _] => Some x
+  | _ => None
+  end.
+
+Definition nested_dead (s : st) : list nat :=
+  let '(_, cl, leaf) := down s in
+  clause_targets cl ++ match leaf with [SAssign c _; _] => [c] | _ => [] end.
+
+Theorem nested_site_sound : forall w fresh after s s',
+  site_nested fresh after s = Some s' -> nested_guard fresh s = true ->
+  forall x l0 en tr en1 tr1, nested_receiver s = Some x -> en x = Some (VList l0) ->
+  exec_block w [s] en tr = Some (en1, tr1) ->
+  exists en2, exec_block w [s'] en tr = Some (en2, tr1)
+    /\ forall y, memn y (nested_dead s) = false -> en1 y = en2 y.
+Proof.
+  intros w fresh after s s' Hs Hg x l0 en tr en1 tr1 Hr Hx Hex.
+  unfold site_nested in Hs. unfold nested_guard in Hg. unfold nested_receiver in Hr. unfold nested_dead.
+  destruct s as [| | | | | t it body orelse |]; try discriminate. destruct orelse; [|discriminate].
+  destruct (down (SFor t it body [])) as [[ifs0 cl] leaf] eqn:Hd.
+  pose proof (down_sound _ _ _ _ Hd) as Hb.
+  assert (Hifs : ifs0 = []).
+  { cbn [down] in Hd. destruct body as [|b [|? ?]]; try (inversion Hd; reflexivity).
+    destruct b; try (inversion Hd; reflexivity).
+    - destruct orelse; [|inversion Hd; reflexivity]. destruct (down (SFor t0 it0 body [])) as [[? ?] ?]. inversion Hd; reflexivity.
+    - destruct orelse; [|inversion Hd; reflexivity]. destruct (down (SIf c body [])) as [[? ?] ?]. inversion Hd; reflexivity. }
+  subst ifs0. cbn [wrap_ifs] in Hb. rewrite Hb in Hex.
+  destruct leaf as [|s1 [|s2 [|? ?]]]; try discriminate.
+  - (* x.extend(e) *)
+    destruct s1; try discriminate. destruct r as [x'|]; [|destruct m; discriminate]. destruct m; try discriminate.
+    inversion Hr; subst x'. clear Hr.
+    destruct (dead_after after (clause_targets cl) && negb (recv_mentions_any (RName x) (clause_targets cl))
+              && negb (mentions x e || existsb (mentions x) (map (gen_of false) cl))) eqn:G; [|discriminate].
+    inversion Hs; subst s'. clear Hs.
+    destruct (extend_nest_sound w x fresh None cl e l0 en tr en1 tr1 Hg eq_refl Hx Hex) as [acc [E1 [E2 E3]]].
+    exists (upd en x (VList (l0 ++ acc))). split.
+    + rewrite exec_block1. cbn [exec]. rewrite Hx, E1. reflexivity.
+    + intros y Hy. rewrite app_nil_r in Hy. destruct (Nat.eq_dec y x) as [->|Hn]; [rewrite E2, upd_same; reflexivity|].
+      rewrite (E3 y Hn eq_refl Hy), upd_other by exact Hn. reflexivity.
+  - (* tmp = e; x.extend(tmp) *)
+    destruct s1 as [c e| ? m0 ? | | | | |]; try discriminate; try (destruct m0; discriminate). destruct s2; try discriminate.
+    destruct r as [x'|]; [|destruct m; try discriminate; destruct e0; discriminate].
+    destruct m; try discriminate. destruct e0; try discriminate.
+    inversion Hr; subst x'. clear Hr.
+    destruct (Nat.eqb c x0 && negb (mentions c e) && negb (existsb (mentions c) (map (gen_of false) cl))) eqn:G0; [|discriminate].
+    apply andb_true_iff in G0 as [G0 _]. apply andb_true_iff in G0 as [G0 _]. apply Nat.eqb_eq in G0. subst x0.
+    destruct (dead_after after (clause_targets cl ++ [c]) && negb (recv_mentions_any (RName x) (clause_targets cl ++ [c]))
+              && negb (mentions x e || existsb (mentions x) (map (gen_of false) cl))) eqn:G; [|discriminate].
+    inversion Hs; subst s'. clear Hs.
+    apply andb_true_iff in Hg as [Hg Hxc].
+    assert (Hxt : negb (memn x (opt_names (Some c))) = true).
+    { cbn [opt_names memn existsb]. rewrite orb_false_r. exact Hxc. }
+    destruct (extend_nest_sound w x fresh (Some c) cl e l0 en tr en1 tr1 Hg Hxt Hx Hex) as [acc [E1 [E2 E3]]].
+    exists (upd en x (VList (l0 ++ acc))). split.
+    + rewrite exec_block1. cbn [exec]. rewrite Hx, E1. reflexivity.
+    + intros y Hy. rewrite memn_app in Hy. apply orb_false_iff in Hy as [Hy1 Hy2].
+      destruct (Nat.eq_dec y x) as [->|Hn]; [rewrite E2, upd_same; reflexivity|].
+      rewrite (E3 y Hn Hy2 Hy1), upd_other by exact Hn. reflexivity.
+  - repeat match type of Hs with context [match ?v with _ => _ end] => destruct v; try discriminate end.
+Qed.
